@@ -154,7 +154,7 @@ theorem slots_length (ss : List (Bytes × Tuple)) : (ss.flatMap slotBytes).lengt
   | cons s ss ih => simp [ih, slotBytes_length]
 
 theorem encPage_length (p : Page) (h : p.WF) : (encPage p).length = 8192 := by
-  obtain ⟨h0, _, _, _, _, _, _, hsum⟩ := h
+  obtain ⟨h0, _, _, _, _, _, _, hsum, _⟩ := h
   rw [encPage_split]
   simp only [List.length_append, pageHdr_length p h0, flatMap_le4_length, List.length_map, slots_length]
   simp only [Page.upper, Page.lower] at hsum
@@ -194,7 +194,7 @@ theorem flatMap_split_at {α β} (f : α → List β) (xs : List α) (k : Nat) (
 /-- slot `k` sits at `slotOff k`, entirely inside the page and not below pd_upper -/
 theorem slot_bounds (p : Page) (h : p.WF) (k : Nat) (hk : k < p.slots.length) :
     p.upper ≤ p.slotOff k ∧ p.slotOff k + (p.slots.getD k default).2.len ≤ 8192 := by
-  obtain ⟨_, _, _, _, _, _, _, hsum⟩ := h
+  obtain ⟨_, _, _, _, _, _, _, hsum, _⟩ := h
   have hs := sum_split_at (p.slots.map slotLen) k (by simpa using hk)
   have hg : (p.slots.getD k default) = p.slots[k] := by simp [List.getD, hk]
   simp only [List.getElem_map, ← List.map_take] at hs
@@ -210,7 +210,7 @@ theorem slot_slice (p : Page) (h : p.WF) (k : Nat) (hk : k < p.slots.length) :
       = .ok (encTuple (p.slots.getD k default).2) := by
   have hb := slot_bounds p h k hk
   have hlen := encPage_length p h
-  obtain ⟨h0, _, _, _, _, _, _, hsum⟩ := h
+  obtain ⟨h0, _, _, _, _, _, _, hsum, _⟩ := h
   have hg : (p.slots.getD k default) = p.slots[k] := by simp [List.getD, hk]
   rw [slice_ok _ _ _ (by omega) (by omega)]
   -- encPage = PRE ++ encTuple ++ POST with PRE.length = slotOff k
@@ -241,13 +241,13 @@ theorem psv_fields (v : Nat) (h1 : 1 ≤ v) (h2 : v ≤ 10) :
   rcases this with rfl | rfl | rfl | rfl | rfl | rfl | rfl | rfl | rfl | rfl <;> decide
 
 theorem upper_le (p : Page) (h : p.WF) : p.upper ≤ 8192 := by
-  obtain ⟨_, _, _, _, _, _, _, hsum⟩ := h; omega
+  obtain ⟨_, _, _, _, _, _, _, hsum, _⟩ := h; omega
 
 theorem parseHeader_enc (p : Page) (h : p.WF) :
     parseHeader (encPage p) = .ok ⟨p.lower, p.upper, 8192, p.version⟩ := by
   have hlen := encPage_length p h
   have hup := upper_le p h
-  obtain ⟨h0, hsp, hv1, hv2, hpr, _, _, hsum⟩ := h
+  obtain ⟨h0, hsp, hv1, hv2, hpr, _, _, hsum, _⟩ := h
   have hlow : p.lower ≤ p.upper := by simp [Page.upper]
   have e : encPage p = p.hdr0 ++ (le 2 p.lower ++ (le 2 p.upper ++ (le 2 p.special ++ (le 2 (8192 + p.version) ++
       (le 4 p.prune ++ (p.lps.flatMap p.encLP ++ p.free ++ p.slots.flatMap slotBytes ++ p.tail)))))) := by
@@ -359,12 +359,100 @@ theorem normalTuples_eq (p : Page) : p.normalTuples = p.lps.filterMap (lpTuple p
   unfold Page.normalTuples
   congr
 
+/-! ### the overlap guard of ParsePage never fires on a well-formed page -/
+
+theorem sum_take_mono (xs : List Nat) (j k : Nat) (h : j ≤ k) : (xs.take j).sum ≤ (xs.take k).sum := by
+  have : xs.take j = (xs.take k).take j := by rw [List.take_take, Nat.min_eq_left h]
+  rw [this]; exact sum_take_le _ _
+
+/-- slot `k`'s tuple ends where the first `k + 1` slots end -/
+theorem slot_end (p : Page) (k : Nat) (hk : k < p.slots.length) :
+    p.slotOff k + (p.slots.getD k default).2.len = p.upper + ((p.slots.map slotLen).take (k + 1)).sum := by
+  have hg : (p.slots.getD k default) = p.slots[k] := by simp [List.getD, hk]
+  have hk' : k < (p.slots.map slotLen).length := by simpa using hk
+  have ht : (p.slots.map slotLen).take (k + 1) = (p.slots.map slotLen).take k ++ [slotLen p.slots[k]] := by
+    rw [List.take_succ_eq_append_getElem hk', List.getElem_map]
+  unfold Page.slotOff
+  rw [ht, hg, List.sum_append, List.map_take]
+  simp only [slotLen, List.sum_cons, List.sum_nil]
+  omega
+
+/-- slots are laid out consecutively: the storage of an earlier slot ends before the tuple of a later slot begins -/
+theorem slot_before (p : Page) (j k : Nat) (hjk : j < k) (hk : k < p.slots.length) :
+    p.slotOff j + (p.slots.getD j default).2.len ≤ p.slotOff k := by
+  rw [slot_end p j (by omega)]
+  have := sum_take_mono (p.slots.map slotLen) (j + 1) k (by omega)
+  unfold Page.slotOff
+  rw [List.map_take]
+  omega
+
+/-- the storage of the tuples of two different slots does not overlap -/
+theorem slot_disjoint (p : Page) (j k : Nat) (hne : j ≠ k) (hj : j < p.slots.length) (hk : k < p.slots.length) :
+    p.slotOff j + (p.slots.getD j default).2.len ≤ p.slotOff k ∨
+    p.slotOff k + (p.slots.getD k default).2.len ≤ p.slotOff j := by
+  by_cases hlt : j < k
+  · exact Or.inl (slot_before p j k hlt hk)
+  · exact Or.inr (slot_before p k j (by omega) hj)
+
+/-- pointers `normal 0 … normal (n−1)` (one per slot, in slot order — what every page builder of the other areas
+produces) name pairwise distinct slots -/
+theorem normalSlots_nodup_of_range (p : Page) (n : Nat) (h : p.lps = (List.range n).map LP.normal) :
+    p.normalSlots.Nodup := by
+  have : p.normalSlots = List.range n := by
+    unfold Page.normalSlots
+    rw [h, List.filterMap_map]
+    have hf : (LP.slot? ∘ LP.normal) = some := by funext k; rfl
+    rw [hf, List.filterMap_some]
+  rw [this]
+  exact List.nodup_range
+
+/-- the pointer `l` of a well-formed page as ParsePage sees it -/
+theorem decItem_lpRaw (p : Page) (h : p.WF) (l : LP) (hl : l ∈ p.lps) :
+    decItem (lpRaw p l) = match l with
+      | .normal k => ⟨p.slotOff k, (p.slots.getD k default).2.len, 1⟩
+      | .other off flags len => ⟨off, len, flags⟩ := by
+  have hw := h.2.2.2.2.2.1 l hl
+  cases l with
+  | normal k =>
+    have hb := slot_bounds p h k hw
+    simp only [lpRaw]
+    rw [decItem_raw _ _ _ (by omega) (by omega) (by omega)]
+  | other off flags len =>
+    obtain ⟨h1, h2, h3, _⟩ := hw
+    simp only [lpRaw]
+    rw [decItem_raw _ _ _ h1 h3 h2]
+
+/-- **On a well-formed page no two NORMAL pointers share storage** (they name distinct slots, and slots are laid out
+consecutively), so ParsePage's overlap guard never fires. -/
+theorem items_no_overlap (p : Page) (h : p.WF) :
+    (p.lps.map fun l => decItem (lpRaw p l)).Pairwise (fun a b => a.flags = 1 → b.flags = 1 → b.overlaps a = false) := by
+  have hnd : p.normalSlots.Nodup := h.2.2.2.2.2.2.2.2
+  unfold Page.normalSlots at hnd
+  rw [List.Nodup, List.pairwise_filterMap] at hnd
+  rw [List.pairwise_map]
+  refine List.Pairwise.imp_of_mem ?_ hnd
+  intro l1 l2 hl1 hl2 hne h1 h2
+  rw [decItem_lpRaw p h l1 hl1] at h1 ⊢
+  rw [decItem_lpRaw p h l2 hl2] at h2 ⊢
+  have hw1 := h.2.2.2.2.2.1 l1 hl1
+  have hw2 := h.2.2.2.2.2.1 l2 hl2
+  cases l1 with
+  | other o1 f1 n1 => exact absurd h1 hw1.2.2.2
+  | normal j =>
+    cases l2 with
+    | other o2 f2 n2 => exact absurd h2 hw2.2.2.2
+    | normal k =>
+      have hjk : j ≠ k := hne j rfl k rfl
+      rw [overlaps_false_iff]
+      exact slot_disjoint p j k hjk hw1 hw2
+
 /-- ParsePage on the encoding of a well-formed page returns exactly the tuples behind NORMAL pointers, in pointer order -/
 theorem parsePage_enc (p : Page) (h : p.WF) :
     parsePage (encPage p) = .ok (p.normalTuples.map mtuple) := by
   unfold parsePage
   rw [if_neg (by rw [encPage_length p h]; omega), parseHeader_enc p h]
   simp only [ok_bind, validHeader_enc p h, Bool.not_true, Bool.false_eq_true, if_false, parseItems_enc p h]
+  rw [pageLoop_eq_collectM _ _ _ [] (fun _ _ _ => overlapsAny_nil _) (items_no_overlap p h)]
   rw [collectM_map, collectM_map_ok _ (fun l => (lpTuple p l).map mtuple) _ (fun l hl => pageItem_enc p h l hl),
     normalTuples_eq, List.map_filterMap]
 
